@@ -75,11 +75,12 @@ class Sessions(Stage):
         specs = histgen.history(d, nconn=d.int(1, 3), nmsg=d.int(4, 40), profile=PROFILE, tagged=True)
         dialect = 'new'
         initial = None
-        if d.chance(0.4):
+        ik = d.weighted([(50, 'none'), (28, 'generated'), (22, 'collapse')])
+        if ik == 'generated':
             g = rm.Gen(d, rm.vocab(specs), 1)
             initial = scripts.gen_matcher_text(d, g)
-            if d.chance(0.3):
-                initial = d.choice(['!', '*.*', 'wl_seat ! *', '*', '* . *', 'wl_display, *'])      # start-up filters that collapse to a constant
+        elif ik == 'collapse':
+            initial = d.choice(['!', '*.*', 'wl_seat ! *', '*', '* . *', 'wl_display, *', '!'])      # start-up filters that collapse to a constant
         return dict(dialect=dialect, specs=specs, initial_filter=initial, items=scripts.gen_script(d, specs, dialect))
 
     def execute(self, case):
